@@ -396,6 +396,53 @@ def run_F(chk):
             chk.verdict("F2", (f, c), f"{name}: `{verdict}` guards {helpers}", True if ok else False,
                         f"{name}(): the verdict `{verdict}` of the fusion test does not guard the masking/embedding of mismatched legs "
                         f"({', '.join(helpers)}) followed by the replacement of the fusion histories")
+    # --- F4: the mask test ranges over every leg for which a union was formed
+    chk.rule("F4", "`any(_legs_mask_needed(..) for ..)` quantifies over an unfiltered enumeration of the legs (not over a selected subset)", floor=2)
+    for mod, name in (("yastn.initialize", "block"), ("yastn.tensor._output", "to_nonsymmetric")):
+        f = prog.func(mod, name)
+        b = A.local_bindings(f.node)
+
+        def domain(e, depth=0):
+            """'full' | 'subset' | None for the iterable of the quantifier"""
+            if depth > 4:
+                return None
+            if isinstance(e, ast.Call):
+                nm = A.call_name(e) or ""
+                if nm in ("enumerate", "range", "zip", "tuple", "list", "sorted", "reversed") :
+                    subs = [domain(a_, depth + 1) for a_ in e.args if not isinstance(a_, ast.Constant)]
+                    return "subset" if "subset" in subs else "full"
+                if nm == "filter":
+                    return "subset"
+                if isinstance(e.func, ast.Attribute) and e.func.attr in ("items", "keys", "values"):
+                    d_ = domain(e.func.value, depth + 1)
+                    return d_ or "full"
+                return "full"
+            if isinstance(e, (ast.ListComp, ast.GeneratorExp, ast.SetComp, ast.DictComp)):
+                if any(g.ifs for g in e.generators):
+                    return "subset"
+                return domain(e.generators[0].iter, depth + 1) or "full"
+            if isinstance(e, ast.Subscript):
+                return "subset" if isinstance(e.slice, ast.Slice) else "full"
+            if isinstance(e, ast.Attribute):
+                return "full"
+            if isinstance(e, ast.Name):
+                ds = [v for st, v, k in b.get(e.id, []) if v is not None and k == "assign"]
+                if not ds:
+                    return None
+                got = [domain(v, depth + 1) for v in ds]
+                return "subset" if "subset" in got else ("full" if all(g == "full" for g in got) else None)
+            return None
+        sites = [c for c in A.walk_local(f.node) if isinstance(c, ast.Call) and A.call_name(c) in ("any", "all") and c.args
+                 and isinstance(c.args[0], (ast.GeneratorExp, ast.ListComp))
+                 and any(isinstance(x, ast.Call) and A.call_name(x) == "_legs_mask_needed" for x in ast.walk(c.args[0].elt))]
+        for c in sites:
+            g = c.args[0]
+            filt = any(gen.ifs for gen in g.generators)
+            d = "subset" if filt else domain(g.generators[0].iter)
+            chk.verdict("F4", (f, c), f"{name}: `{A.short(c, 70)}` ranges over {d or 'an unclassified domain'}", True if d == "full" else False if d == "subset" else None,
+                        f"{name}(): the test that decides whether legs with different sector content have to be embedded is evaluated only for a "
+                        f"selected subset of the legs (`{A.short(g.generators[0].iter, 40)}`), while leg unions are formed for every leg: a mismatch on a leg "
+                        f"outside the subset is not embedded and blocks are combined at wrong offsets / with wrong shapes")
     # sibling: fuse and unfuse derive the leg decomposition from the same table builder
     mf, mu = prog.func(MRG, "_meta_fuse_hard"), prog.func(MRG, "_meta_unfuse_hard")
     for f in (mf, mu):
